@@ -233,7 +233,7 @@ class Spec(unit.UnitSpec):
                 "Mmtk.FreeList.setUnc_refines", "Mmtk.FreeList.clrUnc_refines", "Mmtk.FreeList.abs_reads",
                 "Mmtk.FreeList.step_refines", "Mmtk.FreeList.history_refines",
                 "Mmtk.FreeList.concrete_history_no_overlap", "Mmtk.FreeList.concrete_history_conservation",
-                "Mmtk.FreeList.exRel", "Mmtk.FreeList.exT0_new"]
+                "Mmtk.FreeList.new_refines_single", "Mmtk.FreeList.exRel", "Mmtk.FreeList.exT0_new"]
     component = "fl"
     relation = ("Mmtk.FreeList.* (table of i32 entries, every method, masks) ≙ util::freelist::FreeList on "
                 "IntArrayFreeList (parent + child lists sharing the table) and RawMemoryFreeList (private mmapped window)")
